@@ -862,7 +862,9 @@ Proof.
   intros H1 H2. destruct l; cbn [loss_value loss_vgrad];
     unfold mse_value, mse_vgrad, mae_value, mae_vgrad, hinge_value, hinge_vgrad, sqhinge_value, sqhinge_vgrad.
   - apply (subgradient_lift (1 # 2) (fun tc oc => (oc - tc) * (oc - tc)) (fun tc oc => oc - tc)); [|assumption|assumption].
-    intros tc a b. nra.
+    intros tc a b. assert (Hsq : 0 <= (b - a) * (b - a)) by (destruct (Qlt_le_dec (b - a) 0) as [N|N]; [setoid_replace ((b - a) * (b - a)) with ((-(b - a)) * (-(b - a))) by ring; apply Qmult_le_0_compat; lra | apply Qmult_le_0_compat; exact N]).
+    setoid_replace ((1 # 2) * ((b - tc) * (b - tc))) with ((1 # 2) * ((a - tc) * (a - tc)) + (a - tc) * (b - a) + (1 # 2) * ((b - a) * (b - a))) by ring.
+    lra.
   - pose proof (subgradient_lift 1 (fun tc oc => qabs (oc - tc)) (fun tc oc => qsign (oc - tc))) as L.
     rewrite <- (Qmult_1_l (qsum (map2 (fun tc oc => qabs (oc - tc)) t o))).
     rewrite <- (Qmult_1_l (qsum (map2 (fun tc oc => qabs (oc - tc)) t o'))). apply L; [|assumption|assumption].
@@ -876,5 +878,20 @@ Proof.
   - pose proof (subgradient_lift 1 (fun tc oc => qmax0 (1 - tc * oc) * qmax0 (1 - tc * oc)) (fun tc oc => - tc * qmax0 (1 - tc * oc) * 2)) as L.
     rewrite <- (Qmult_1_l (qsum (map2 (fun tc oc => qmax0 (1 - tc * oc) * qmax0 (1 - tc * oc)) t o))).
     rewrite <- (Qmult_1_l (qsum (map2 (fun tc oc => qmax0 (1 - tc * oc) * qmax0 (1 - tc * oc)) t o'))). apply L; [|assumption|assumption].
-    intros tc a b. destruct (qmax0_spec (1 - tc * a)) as [[? ->]|[? ->]], (qmax0_spec (1 - tc * b)) as [[? ->]|[? ->]]; nra.
+    intros tc a b.
+    assert (Hd : (b - a) * tc == (1 - tc * a) - (1 - tc * b)) by ring.
+    set (u := 1 - tc * a) in *. set (v := 1 - tc * b) in *.
+    assert (Hg : forall m, - tc * m * 2 * (b - a) == 2 * m * (v - u)).
+    { intros m. setoid_replace (- tc * m * 2 * (b - a)) with (- (2 * m * ((b - a) * tc))) by ring. rewrite Hd. ring. }
+    clearbody u v. clear Hd.
+    destruct (qmax0_spec u) as [[Hu ->]|[Hu ->]], (qmax0_spec v) as [[Hv ->]|[Hv ->]]; rewrite Hg.
+    + assert (0 <= (v - u) * (v - u)) by (destruct (Qlt_le_dec (v - u) 0) as [N|N];
+        [setoid_replace ((v - u) * (v - u)) with ((-(v - u)) * (-(v - u))) by ring; apply Qmult_le_0_compat; lra
+        | apply Qmult_le_0_compat; exact N]).
+      setoid_replace (1 * (v * v)) with (1 * (u * u) + 2 * u * (v - u) + (v - u) * (v - u)) by ring. lra.
+    + assert (0 <= u * (- v)) by (apply Qmult_le_0_compat; lra).
+      assert (0 <= u * u) by (apply Qmult_le_0_compat; lra).
+      setoid_replace (2 * u * (v - u)) with (- (2 * (u * - v)) - 2 * (u * u)) by ring. lra.
+    + assert (0 <= v * v) by (apply Qmult_le_0_compat; lra). lra.
+    + lra.
 Qed.
